@@ -141,7 +141,9 @@ def _stable_rng(*parts):
 def build(spec, seed):
     nm, v, dt, dk = spec.split('|'); v = int(v); dk = int(dk)
     n, nv, f, dask_ok, kind = cat()[nm]
-    rng = _stable_rng('C11spec', spec, seed)
+    # the rasters depend on (function, dtype, backend, seed) only - not on the parameter variant - so that two variants of one
+    # function see the same data (and, on Dask, input arrays with identical names)
+    rng = _stable_rng('C11spec', nm, dt, dk, seed)
     H, W = int(rng.integers(4, 9)), int(rng.integers(4, 9))
     if kind == 'bigelev':
         H, W = int(rng.integers(130, 171)), int(rng.integers(130, 171))
